@@ -138,7 +138,8 @@ impl P {
         }
         let t: String = self.c[st..self.i].iter().collect();
         match t.parse::<u64>() {
-            Ok(v) if v <= u32::MAX as u64 => Ok(Some(v as usize)),
+            // the grammar has no limit; the implementation's is the machine word
+            Ok(v) => Ok(Some(v as usize)),
             _ => {
                 self.unsure = Some("quantifier bound beyond implementation limits".into());
                 Ok(Some(usize::MAX / 4))
